@@ -1,2 +1,122 @@
+import PelProofs.Dump
+import PelProofs.HexDumpParse
+import PelProps.C13
+import PelGen.Live
+/-
+  C17 — An I/O drawer dump is split into ILOG and trace regions that partition it.
+-/
 namespace Pel.C17
+
+/-! Pins -/
+theorem pin_header_start : ∀ v ∈ Live.traceHeaderStart, v = traceHeaderStart := by decide
+theorem pin_buffer_names : ∀ v ∈ Live.traceBufferNames, v = bufferNames := by decide
+theorem pin_divider : ∀ v ∈ Live.dividerLine, v = dividerLine := by decide
+theorem pin_format_count : ∀ v ∈ Live.hexFormatCount, v = 2 := by decide
+
+/-- `findSub` returns the least index at which the pattern occurs -/
+theorem findSub_least (pat b : Bytes) (k : Nat) (h : findSub pat b 0 = some k) :
+    k ≤ b.length ∧ pat.isPrefixOf (b.drop k) = true ∧ ∀ j, j < k → pat.isPrefixOf (b.drop j) = false := by
+  have := findSub_some_aux pat b 0 k h
+  simpa using this.2
+
+theorem findSub_none (pat b : Bytes) (h : findSub pat b 0 = none) :
+    ∀ j, j ≤ b.length → pat.isPrefixOf (b.drop j) = false := by
+  exact findSub_none_aux pat b 0 h
+
+/-- ★ the regions cover every byte exactly once, in address order -/
+theorem partition (b : Bytes) :
+    ilogRegion b (bufferOffsets b) ++ (traceRegions b (bufferOffsets b)).flatten = b := by
+  exact regions_partition b _ (bufferOffsets_pairwise b)
+
+/-- the offsets are in ascending order and inside the data -/
+theorem offsets_sorted (b : Bytes) : (bufferOffsets b).Pairwise (· ≤ ·) ∧ ∀ o ∈ bufferOffsets b, o ≤ b.length := by
+  exact ⟨bufferOffsets_pairwise b, bufferOffsets_le b⟩
+
+/-- ★ every trace region begins at a recognised header: the four start bytes followed by one of the six names -/
+theorem regions_begin_with_header (b : Bytes) :
+    ∀ o ∈ bufferOffsets b, ∃ nm ∈ bufferNames, (traceHeaderStart ++ nm).isPrefixOf (b.drop o) = true := by
+  intro o ho
+  obtain ⟨nm, hnm, h⟩ := (mem_bufferOffsets b o).mp ho
+  exact ⟨nm, hnm, (findSub_least _ b o h).2.1⟩
+
+/-- ★ the ILOG region is everything before the EARLIEST recognised header: no header pattern occurs at an
+    offset before the first region boundary -/
+theorem no_header_before_first (b : Bytes) (o : Nat) (os : List Nat) (h : bufferOffsets b = o :: os) :
+    ∀ nm ∈ bufferNames, ∀ j, j < o → (traceHeaderStart ++ nm).isPrefixOf (b.drop j) = false := by
+  intro nm hnm j hj
+  have ho : o ≤ b.length := bufferOffsets_le b o (by rw [h]; simp)
+  have hsorted := bufferOffsets_pairwise b
+  rw [h, List.pairwise_cons] at hsorted
+  cases hf : findSub (traceHeaderStart ++ nm) b 0 with
+  | none => exact findSub_none _ b hf j (by omega)
+  | some k =>
+    have hk : k ∈ bufferOffsets b := (mem_bufferOffsets b k).mpr ⟨nm, hnm, hf⟩
+    rw [h] at hk
+    have hok : o ≤ k := by
+      rcases List.mem_cons.mp hk with rfl | hk
+      · exact Nat.le_refl _
+      · exact hsorted.1 k hk
+    exact (findSub_least _ b k hf).2.2 j (by omega)
+
+theorem no_header_means_all_ilog (b : Bytes) (h : bufferOffsets b = []) :
+    ilogRegion b (bufferOffsets b) = b ∧
+    ∀ nm ∈ bufferNames, ∀ j, j ≤ b.length → (traceHeaderStart ++ nm).isPrefixOf (b.drop j) = false := by
+  refine ⟨by rw [h]; rfl, ?_⟩
+  intro nm hnm j hj
+  cases hf : findSub (traceHeaderStart ++ nm) b 0 with
+  | none => exact findSub_none _ b hf j hj
+  | some k =>
+    have hk : k ∈ bufferOffsets b := (mem_bufferOffsets b k).mpr ⟨nm, hnm, hf⟩
+    rw [h] at hk
+    simp at hk
+
+/-- ★ each region is reported under its own heading, decoded exactly as the stand-alone decoders decode those bytes -/
+theorem composition (tbl : List PteEntry) (ss : List TraceString) (b : Bytes) (hne : b ≠ []) :
+    parseDumpData tbl ss b =
+      (match parseIlog tbl (ilogRegion b (bufferOffsets b)) with
+       | none => none
+       | some il => (optAll ((traceRegions b (bufferOffsets b)).map (parseTrace ss))).map fun ts =>
+           ([s "ILOG", []] ++ il ++ [[], dividerLine, []]) ++
+             (ts.map fun t => [s "Trace", []] ++ t ++ [[], dividerLine, []]).flatten) := by
+  have he : b.isEmpty = false := by
+    cases b with
+    | nil => exact absurd rfl hne
+    | cons x r => rfl
+  unfold parseDumpData
+  simp only [he, Bool.false_eq_true, if_false, formatIlogSection]
+  rfl
+
+theorem empty_input (tbl : List PteEntry) (ss : List TraceString) : parseDumpData tbl ss [] = some [] := by
+  simp [parseDumpData]
+
+/-- ★ decoding a dump file written in the BMC format (padded or truncated short last line, any comment or
+    blank lines) gives the same result as decoding its raw bytes -/
+theorem file_equals_raw_bmc (tbl : List PteEntry) (ss : List TraceString) (pad : Bool) (b : Bytes)
+    (hb : ∀ x ∈ b, x < 256) (text : List Text)
+    (h : (text.map rstripNL).filter (fun t => !isNoise t) = renderBmc pad b) :
+    parseDumpFile tbl ss text = parseDumpData tbl ss b := by
+  have h1 : parseDump fmtBmc text = b := C13.parse_bmc pad b hb text h
+  unfold parseDumpFile
+  simp only [h1]
+  cases b with
+  | nil =>
+    rw [renderBmc_nil] at h
+    have h2 : parseDump fmtPre text = [] := parseDump_all_noise fmtPre (Or.inr (by decide)) text h
+    simp [h2, parseDumpData]
+  | cons x r => simp
+
+/-- ★ the same for the pre-BMC format: the BMC template yields no bytes on such a file, so detection falls
+    through to the pre-BMC template -/
+theorem file_equals_raw_prebmc (tbl : List PteEntry) (ss : List TraceString) (pad : Bool) (b : Bytes)
+    (hb : ∀ x ∈ b, x < 256) (text : List Text)
+    (h : (text.map rstripNL).filter (fun t => !isNoise t) = renderPre pad b) :
+    parseDumpFile tbl ss text = parseDumpData tbl ss b := by
+  have h1 : parseDump fmtBmc text = [] := parseDump_bmc_of_pre pad b text h
+  have h2 : parseDump fmtPre text = b := C13.parse_prebmc pad b hb text h
+  unfold parseDumpFile
+  simp only [h1, h2]
+  cases b with
+  | nil => simp [parseDumpData]
+  | cons x r => simp
+
 end Pel.C17
